@@ -69,13 +69,34 @@ pub broadcast proof fn lemma_map_remove(s: Seq<Vec<u8>>, i: int)
 pub broadcast proof fn lemma_map_push(s: Seq<Vec<u8>>, x: Vec<u8>)
     ensures #[trigger] topics_of(s.push(x)) =~= topics_of(s).push(x@),
 {}
-/// `t1` is `t0` with the FIRST occurrence of `topic` removed (or `t0` itself when there is none)
+/// RFC 29 counts subscriptions: SUBSCRIBE adds one occurrence of the topic, CANCEL takes one occurrence away (none if
+/// there is none).  Stated over the multiset of topics: the order the socket keeps them in is not observable (the
+/// filter asks whether SOME subscription is a prefix).
+pub open spec fn subscribed(t0: Seq<Seq<u8>>, t1: Seq<Seq<u8>>, topic: Seq<u8>) -> bool {
+    t1.to_multiset() =~= t0.to_multiset().insert(topic)
+}
 pub open spec fn cancelled(t0: Seq<Seq<u8>>, t1: Seq<Seq<u8>>, topic: Seq<u8>) -> bool {
-    if exists|i: int| 0 <= i < t0.len() && t0[i] == topic {
-        exists|i: int| 0 <= i < t0.len() && #[trigger] t0[i] == topic && (forall|j: int| 0 <= j < i ==> t0[j] != topic) && t1 =~= t0.remove(i)
-    } else {
-        t1 =~= t0
-    }
+    t1.to_multiset() =~= t0.to_multiset().remove(topic)
+}
+pub proof fn lemma_topics_push(t0: Seq<Seq<u8>>, x: Seq<u8>)
+    ensures subscribed(t0, t0.push(x), x),
+{
+    broadcast use vstd::seq_lib::group_to_multiset_ensures;
+}
+pub proof fn lemma_topics_remove(t0: Seq<Seq<u8>>, i: int)
+    requires 0 <= i < t0.len(),
+    ensures cancelled(t0, t0.remove(i), t0[i]),
+{
+    broadcast use vstd::seq_lib::group_to_multiset_ensures;
+}
+pub proof fn lemma_topics_absent(t0: Seq<Seq<u8>>, x: Seq<u8>)
+    requires forall|j: int| 0 <= j < t0.len() ==> t0[j] != x,
+    ensures cancelled(t0, t0, x),
+{
+    broadcast use vstd::seq_lib::group_to_multiset_ensures;
+    t0.to_multiset_ensures();
+    assert(!t0.contains(x));
+    assert(t0.to_multiset().count(x) == 0);
 }
 spec fn topics(s: Subscriber) -> Seq<Seq<u8>> { topics_of(s.subscriptions@) }
 
@@ -92,14 +113,29 @@ impl PubSocketBackend {
 //@|            final(self).subscribers@.dom() =~= old(self).subscribers@.dom(),
 //@|            // anything that is not a one-frame 0x01 / 0x00 message changes nothing
 //@|            (sub_frame(message) is None || sub_frame(message)->Some_0[0] > 1) ==> final(self).subscribers@ == old(self).subscribers@,
-//@|            // SUBSCRIBE appends the topic
+//@|            // SUBSCRIBE adds one occurrence of the topic
 //@|            (sub_frame(message) is Some && sub_frame(message)->Some_0[0] == 1 && old(self).subscribers@.contains_key(*peer_id)) ==>
-//@|                topics(final(self).subscribers@[*peer_id]) =~= topics(old(self).subscribers@[*peer_id]).push(sub_frame(message)->Some_0.subrange(1, sub_frame(message)->Some_0.len() as int)),
-//@|            // CANCEL removes exactly one subscription, the first equal one; an unknown topic changes nothing
+//@|                subscribed(topics(old(self).subscribers@[*peer_id]), topics(final(self).subscribers@[*peer_id]), sub_frame(message)->Some_0.subrange(1, sub_frame(message)->Some_0.len() as int)),
+//@|            // CANCEL takes one occurrence of the topic away; an unknown topic changes nothing
 //@|            (sub_frame(message) is Some && sub_frame(message)->Some_0[0] == 0 && old(self).subscribers@.contains_key(*peer_id)) ==>
 //@|                cancelled(topics(old(self).subscribers@[*peer_id]), topics(final(self).subscribers@[*peer_id]), sub_frame(message)->Some_0.subrange(1, sub_frame(message)->Some_0.len() as int)),
 //@ hint start
 //@|        broadcast use lemma_map_remove, lemma_map_push;
+//@ hint before "entry.subscriptions.push("
+//@|                    let ghost tp0 = topics_of(entry.subscriptions@);
+//@ hint after "entry.subscriptions.push(Vec::from(&data[1..]));"
+//@|                    proof {
+//@|                        assert(topics_of(entry.subscriptions@) =~= tp0.push(topics_of(entry.subscriptions@).last()));
+//@|                        lemma_topics_push(tp0, topics_of(entry.subscriptions@).last());
+//@|                    }
+//@ hint before "if let Some(index) ="
+//@|                    proof {
+//@|                        if forall|j: int| 0 <= j < entry.subscriptions@.len() ==> topics_of(entry.subscriptions@)[j] != sub@ {
+//@|                            lemma_topics_absent(topics_of(entry.subscriptions@), sub@);
+//@|                        }
+//@|                    }
+//@ hint before "entry.subscriptions.remove(index);"
+//@|                        proof { lemma_topics_remove(topics_of(entry.subscriptions@), index as int); }
 //@ end
 }
 
@@ -121,11 +157,26 @@ impl XPubSocketBackend {
 //@|            final(self).subscribers@.dom() =~= old(self).subscribers@.dom(),
 //@|            (sub_frame(message) is None || sub_frame(message)->Some_0[0] > 1) ==> final(self).subscribers@ == old(self).subscribers@,
 //@|            (sub_frame(message) is Some && sub_frame(message)->Some_0[0] == 1 && old(self).subscribers@.contains_key(*peer_id)) ==>
-//@|                xtopics(final(self).subscribers@[*peer_id]) =~= xtopics(old(self).subscribers@[*peer_id]).push(sub_frame(message)->Some_0.subrange(1, sub_frame(message)->Some_0.len() as int)),
+//@|                subscribed(xtopics(old(self).subscribers@[*peer_id]), xtopics(final(self).subscribers@[*peer_id]), sub_frame(message)->Some_0.subrange(1, sub_frame(message)->Some_0.len() as int)),
 //@|            (sub_frame(message) is Some && sub_frame(message)->Some_0[0] == 0 && old(self).subscribers@.contains_key(*peer_id)) ==>
 //@|                cancelled(xtopics(old(self).subscribers@[*peer_id]), xtopics(final(self).subscribers@[*peer_id]), sub_frame(message)->Some_0.subrange(1, sub_frame(message)->Some_0.len() as int)),
 //@ hint start
 //@|        broadcast use lemma_map_remove, lemma_map_push;
+//@ hint before "entry.subscriptions.push("
+//@|                    let ghost tp0 = topics_of(entry.subscriptions@);
+//@ hint after "entry.subscriptions.push(Vec::from(&data[1..]));"
+//@|                    proof {
+//@|                        assert(topics_of(entry.subscriptions@) =~= tp0.push(topics_of(entry.subscriptions@).last()));
+//@|                        lemma_topics_push(tp0, topics_of(entry.subscriptions@).last());
+//@|                    }
+//@ hint before "if let Some(index) ="
+//@|                    proof {
+//@|                        if forall|j: int| 0 <= j < entry.subscriptions@.len() ==> topics_of(entry.subscriptions@)[j] != sub@ {
+//@|                            lemma_topics_absent(topics_of(entry.subscriptions@), sub@);
+//@|                        }
+//@|                    }
+//@ hint before "entry.subscriptions.remove(index);"
+//@|                        proof { lemma_topics_remove(topics_of(entry.subscriptions@), index as int); }
 //@ end
 }
 
@@ -161,6 +212,290 @@ impl SubSocketBackendNs {
 //@|            b_view(&r.fr()[0]) == seq![if msg_type is SUBSCRIBE { 1u8 } else { 0u8 }] + str_bytes(subscription),
 //@ hint start
 //@|        broadcast use axiom_msg_of_one;
+//@ end
+}
+
+// =================================================================================
+// C11: PUB / XPUB `send` — a subscriber is handed the message iff one of its subscriptions is a prefix of the first
+// frame, and then exactly once.  The scc traversal is the cursor stand-in of prelude/socket_standins.rs.
+// =================================================================================
+/// what the socket has handed to this connection's writer, in order (each `try_send` call, accepted or dropped:
+/// dropping at the high-water mark is C12's subject, not this one)
+pub uninterp spec fn pq_tried(q: Pin<Box<ZmqFramedWrite>>) -> Seq<Message>;
+/// D5 (expression): `subscriber.send_queue.as_mut().try_send(item)` goes through `Pin<&mut _>` and the `TrySend`
+/// trait of src/codec/mod.rs (poll_ready / start_send / poll_flush on the external FramedWrite).  ASSUMED: one call
+/// presents exactly this item to exactly this writer, whatever the result.
+#[verifier::external_body]
+fn assumed_pinned_try_send(q: &mut Pin<Box<ZmqFramedWrite>>, item: Message) -> (r: ZmqResult<()>)
+    ensures pq_tried(*final(q)) == pq_tried(*old(q)).push(item),
+{ unimplemented!() }
+/// D5 (expression): `e.kind() == ErrorKind::BrokenPipe` on an external std::io::Error.  ASSUMED: a pure test.
+#[verifier::external_body]
+fn assumed_is_broken_pipe(e: &std::io::Error) -> (r: bool)
+{ unimplemented!() }
+
+pub open spec fn is_prefix(p: Seq<u8>, s: Seq<u8>) -> bool { p.len() <= s.len() && p =~= s.subrange(0, p.len() as int) }
+/// RFC 29: the message matches the subscriber iff SOME subscription is a prefix of its first frame
+pub open spec fn matches_any(subs: Seq<Seq<u8>>, first: Seq<u8>) -> bool {
+    exists|j: int| 0 <= j < subs.len() && is_prefix(#[trigger] subs[j], first)
+}
+/// `l1` is `l0` plus exactly one more item: a message with the frames of `m` (the code hands over a clone)
+pub open spec fn handed_one(l0: Seq<Message>, l1: Seq<Message>, m: ZmqMessage) -> bool {
+    l1.len() == l0.len() + 1 && l1.drop_last() == l0 && l1.last() is Message && l1.last()->Message_0.fr() == m.fr()
+}
+pub open spec fn first_frame(m: ZmqMessage) -> Seq<u8> { b_view(&m.fr()[0]) }
+/// one subscriber before / after a `send(m)`: subscriptions untouched, and the writer was handed `m` exactly once
+/// if a subscription matches, not at all otherwise
+spec fn delivered_iff(s0: Subscriber, s1: Subscriber, m: ZmqMessage) -> bool {
+    &&& s1.subscriptions == s0.subscriptions
+    &&& if matches_any(topics(s0), first_frame(m)) { handed_one(pq_tried(s0.send_queue), pq_tried(s1.send_queue), m) } else { pq_tried(s1.send_queue) == pq_tried(s0.send_queue) }
+}
+
+impl PubSocketBackend {
+    // stand-in for `SocketBackend::monitor(&self) -> &Mutex<..>` (shared borrow of interior-mutable data -> &mut, D7)
+    fn monitor(&mut self) -> (r: &mut Mutex<Option<mpsc::Sender<SocketEvent>>>)
+        ensures *r == old(self).socket_monitor, final(self).socket_monitor == *final(r),
+            final(self).subscribers == old(self).subscribers, final(self).socket_options == old(self).socket_options,
+    { &mut self.socket_monitor }
+//@ item src/pub.rs :: impl MultiPeerBackend for PubSocketBackend / fn peer_disconnected
+//@ name PubSocketBackend::peer_disconnected
+//@ inherent
+//@ receiver-mut
+//@ spec
+//@|        ensures final(self).subscribers@ == old(self).subscribers@.remove(*peer_id),
+//@ end
+}
+//@ item src/pub.rs :: struct PubSocket
+//@ end
+impl PubSocket {
+//@ item src/pub.rs :: impl SocketSend for PubSocket / fn send
+//@ name PubSocket::send
+//@ inherent
+//@ subst-re "subscriber\s*\.send_queue\s*\.as_mut\(\)\s*\.try_send\("
+//@|    assumed_pinned_try_send(&mut subscriber.send_queue,
+//@ subst "e.kind() == ErrorKind::BrokenPipe"
+//@|    assumed_is_broken_pipe(&e)
+//@ ret r
+//@ spec
+//@|        requires message.fr().len() >= 1,
+//@|        ensures
+//@|            // every subscriber that is still registered afterwards was registered before and got the message iff
+//@|            // one of its subscriptions is a prefix of the first frame - exactly once, even if several match
+//@|            r is Ok ==> forall|k: PeerIdentity| #[trigger] final(self).backend.subscribers@.contains_key(k) ==>
+//@|                old(self).backend.subscribers@.contains_key(k)
+//@|                && delivered_iff(old(self).backend.subscribers@[k], final(self).backend.subscribers@[k], message),
+//@ hint start
+//@|        let ghost t0 = self.backend.subscribers@;
+//@|        let ghost first = first_frame(message);
+//@ hint before "while let Some(mut subscriber) = iter"
+//@|        // the table as the traversal will leave it (prophecy of the borrow the entries hold)
+//@|        let ghost tfv = if iter is Some { final(iter->Some_0.map)@ } else { t0 };
+//@ loop 1
+//@|            invariant
+//@|                iter matches Some(e) ==> e.wf() && final(e.map)@ == tfv && e.map@.dom() =~= t0.dom()
+//@|                    && (forall|j: int| e.idx@ <= j < e.order@.len() ==> e.map@[e.order@[j]] == t0[e.order@[j]])
+//@|                    && (forall|j: int| 0 <= j < e.idx@ ==> delivered_iff(t0[e.order@[j]], #[trigger] e.map@[e.order@[j]], message)),
+//@|                iter is None ==> tfv.dom() =~= t0.dom() && (forall|k: PeerIdentity| t0.contains_key(k) ==> delivered_iff(t0[k], #[trigger] tfv[k], message)),
+//@|                message.fr().len() >= 1, first == first_frame(message),
+//@|            ensures
+//@|                iter is None,
+//@|            decreases (if iter is Some { iter->Some_0.order@.len() - iter->Some_0.idx@ } else { 0 })
+//@ loopbody 1
+//@|            let ghost s0 = subscriber.val();
+//@|            let ghost e0 = subscriber;
+//@|            proof { assert(e0.order@.contains(e0.k())); }
+//@ loop 2 it
+//@|                invariant_except_break
+//@|                    forall|j: int| 0 <= j < it.index() ==> !is_prefix(#[trigger] topics(s0)[j], first),
+//@|                    subscriber.val() == s0,
+//@|                invariant
+//@|                    subscriber.map@ =~= e0.map@.insert(e0.k(), subscriber.val()),
+//@|                    e0.map@.contains_key(e0.k()),
+//@|                    it.seq() =~= s0.subscriptions@.as_ref(),
+//@|                    0 <= it.index() <= s0.subscriptions@.len(),
+//@|                    e0.wf(), s0 == e0.val(),
+//@|                    subscriber.wf(), subscriber.order == e0.order, subscriber.idx == e0.idx,
+//@|                    final(subscriber.map)@ == tfv,
+//@|                    message.fr().len() >= 1, first == first_frame(message),
+//@|                ensures
+//@|                    delivered_iff(s0, subscriber.val(), message),
+//@ loopbody 2
+//@|                proof {
+//@|                    assert(it.seq()[it.index() as int] == sub_filter);
+//@|                    assert(sub_filter@ == topics(s0)[it.index() as int]);
+//@|                }
+//@ hint before "let res = subscriber"
+//@|                    proof {
+//@|                        assert(sub_filter@ =~= first.subrange(0, sub_filter@.len() as int));
+//@|                        assert(is_prefix(topics(s0)[it.index() as int], first));
+//@|                    }
+//@ hint? before "break;"
+//@|                    proof {
+//@|                        assert(subscriber.val().subscriptions == s0.subscriptions);
+//@|                        assert(matches_any(topics(s0), first));
+//@|                        assert(pq_tried(subscriber.val().send_queue).len() == pq_tried(s0.send_queue).len() + 1);
+//@|                        assert(pq_tried(subscriber.val().send_queue).drop_last() =~= pq_tried(s0.send_queue));
+//@|                        assert(handed_one(pq_tried(s0.send_queue), pq_tried(subscriber.val().send_queue), message));
+//@|                    }
+//@ afterloop 2
+//@|            proof {
+//@|                assert forall|j: int| 0 <= j < e0.order@.len() && j != e0.idx@ implies #[trigger] subscriber.map@[e0.order@[j]] == e0.map@[e0.order@[j]] by {
+//@|                    assert(e0.order@[j] != e0.k());
+//@|                }
+//@|            }
+//@|            let ghost e1 = subscriber;
+//@ hint after "iter = subscriber.next_async().await;"
+//@|            proof {
+//@|                assert(t0[e0.k()] == s0);
+//@|                assert(e1.order == e0.order && e1.idx == e0.idx);
+//@|                assert(e1.map@[e0.k()] == e1.val());
+//@|                assert(delivered_iff(s0, e1.val(), message));
+//@|                assert(delivered_iff(t0[e0.order@[e0.idx@]], e1.map@[e0.order@[e0.idx@]], message));
+//@|                assert forall|j: int| 0 <= j < e0.idx@ implies delivered_iff(t0[e0.order@[j]], #[trigger] e1.map@[e0.order@[j]], message) by {
+//@|                    assert(e1.map@[e0.order@[j]] == e0.map@[e0.order@[j]]);
+//@|                    assert(delivered_iff(t0[e0.order@[j]], e0.map@[e0.order@[j]], message));
+//@|                }
+//@|                assert forall|j: int| e0.idx@ < j < e0.order@.len() implies #[trigger] e1.map@[e0.order@[j]] == t0[e0.order@[j]] by {
+//@|                    assert(e1.map@[e0.order@[j]] == e0.map@[e0.order@[j]]);
+//@|                }
+//@|                if iter is None {
+//@|                    assert forall|k: PeerIdentity| t0.contains_key(k) implies delivered_iff(t0[k], #[trigger] tfv[k], message) by {
+//@|                        assert(e1.order@.contains(k));
+//@|                        let j = choose|j: int| 0 <= j < e1.order@.len() && e1.order@[j] == k;
+//@|                        assert(e1.map@[e1.order@[j]] == tfv[k]);
+//@|                    }
+//@|                }
+//@|            }
+//@ afterloop 1
+//@|        proof { assert(self.backend.subscribers@ == tfv); }
+//@ loop 3
+//@|            invariant
+//@|                tfv.dom() =~= t0.dom(), forall|k: PeerIdentity| t0.contains_key(k) ==> delivered_iff(t0[k], #[trigger] tfv[k], message),
+//@|                forall|k: PeerIdentity| #[trigger] self.backend.subscribers@.contains_key(k) ==> tfv.contains_key(k) && self.backend.subscribers@[k] == tfv[k],
+//@ end
+}
+
+// ---- XPUB: the same send loop (src/xpub.rs) ----
+spec fn xdelivered_iff(s0: XPubSubscriber, s1: XPubSubscriber, m: ZmqMessage) -> bool {
+    &&& s1.subscriptions == s0.subscriptions
+    &&& if matches_any(xtopics(s0), first_frame(m)) { handed_one(pq_tried(s0.send_queue), pq_tried(s1.send_queue), m) } else { pq_tried(s1.send_queue) == pq_tried(s0.send_queue) }
+}
+impl XPubSocketBackend {
+//@ item src/xpub.rs :: impl MultiPeerBackend for XPubSocketBackend / fn peer_disconnected
+//@ name XPubSocketBackend::peer_disconnected
+//@ inherent
+//@ receiver-mut
+//@ spec
+//@|        ensures final(self).subscribers@ == old(self).subscribers@.remove(*peer_id),
+//@ end
+}
+//@ item src/xpub.rs :: struct XPubSocket
+//@ end
+impl XPubSocket {
+//@ item src/xpub.rs :: impl SocketSend for XPubSocket / fn send
+//@ name XPubSocket::send
+//@ inherent
+//@ subst-re "subscriber\s*\.send_queue\s*\.as_mut\(\)\s*\.try_send\("
+//@|    assumed_pinned_try_send(&mut subscriber.send_queue,
+//@ subst "e.kind() == ErrorKind::BrokenPipe"
+//@|    assumed_is_broken_pipe(&e)
+//@ ret r
+//@ spec
+//@|        requires message.fr().len() >= 1,
+//@|        ensures
+//@|            // every subscriber that is still registered afterwards was registered before and got the message iff
+//@|            // one of its subscriptions is a prefix of the first frame - exactly once, even if several match
+//@|            r is Ok ==> forall|k: PeerIdentity| #[trigger] final(self).backend.subscribers@.contains_key(k) ==>
+//@|                old(self).backend.subscribers@.contains_key(k)
+//@|                && xdelivered_iff(old(self).backend.subscribers@[k], final(self).backend.subscribers@[k], message),
+//@ hint start
+//@|        let ghost t0 = self.backend.subscribers@;
+//@|        let ghost first = first_frame(message);
+//@ hint before "while let Some(mut subscriber) = iter"
+//@|        // the table as the traversal will leave it (prophecy of the borrow the entries hold)
+//@|        let ghost tfv = if iter is Some { final(iter->Some_0.map)@ } else { t0 };
+//@ loop 1
+//@|            invariant
+//@|                iter matches Some(e) ==> e.wf() && final(e.map)@ == tfv && e.map@.dom() =~= t0.dom()
+//@|                    && (forall|j: int| e.idx@ <= j < e.order@.len() ==> e.map@[e.order@[j]] == t0[e.order@[j]])
+//@|                    && (forall|j: int| 0 <= j < e.idx@ ==> xdelivered_iff(t0[e.order@[j]], #[trigger] e.map@[e.order@[j]], message)),
+//@|                iter is None ==> tfv.dom() =~= t0.dom() && (forall|k: PeerIdentity| t0.contains_key(k) ==> xdelivered_iff(t0[k], #[trigger] tfv[k], message)),
+//@|                message.fr().len() >= 1, first == first_frame(message),
+//@|            ensures
+//@|                iter is None,
+//@|            decreases (if iter is Some { iter->Some_0.order@.len() - iter->Some_0.idx@ } else { 0 })
+//@ loopbody 1
+//@|            let ghost s0 = subscriber.val();
+//@|            let ghost e0 = subscriber;
+//@|            proof { assert(e0.order@.contains(e0.k())); }
+//@ loop 2 it
+//@|                invariant_except_break
+//@|                    forall|j: int| 0 <= j < it.index() ==> !is_prefix(#[trigger] xtopics(s0)[j], first),
+//@|                    subscriber.val() == s0,
+//@|                invariant
+//@|                    subscriber.map@ =~= e0.map@.insert(e0.k(), subscriber.val()),
+//@|                    e0.map@.contains_key(e0.k()),
+//@|                    it.seq() =~= s0.subscriptions@.as_ref(),
+//@|                    0 <= it.index() <= s0.subscriptions@.len(),
+//@|                    e0.wf(), s0 == e0.val(),
+//@|                    subscriber.wf(), subscriber.order == e0.order, subscriber.idx == e0.idx,
+//@|                    final(subscriber.map)@ == tfv,
+//@|                    message.fr().len() >= 1, first == first_frame(message),
+//@|                ensures
+//@|                    xdelivered_iff(s0, subscriber.val(), message),
+//@ loopbody 2
+//@|                proof {
+//@|                    assert(it.seq()[it.index() as int] == sub_filter);
+//@|                    assert(sub_filter@ == xtopics(s0)[it.index() as int]);
+//@|                }
+//@ hint before "let res = subscriber"
+//@|                    proof {
+//@|                        assert(sub_filter@ =~= first.subrange(0, sub_filter@.len() as int));
+//@|                        assert(is_prefix(xtopics(s0)[it.index() as int], first));
+//@|                    }
+//@ hint? before "break;"
+//@|                    proof {
+//@|                        assert(subscriber.val().subscriptions == s0.subscriptions);
+//@|                        assert(matches_any(xtopics(s0), first));
+//@|                        assert(pq_tried(subscriber.val().send_queue).len() == pq_tried(s0.send_queue).len() + 1);
+//@|                        assert(pq_tried(subscriber.val().send_queue).drop_last() =~= pq_tried(s0.send_queue));
+//@|                        assert(handed_one(pq_tried(s0.send_queue), pq_tried(subscriber.val().send_queue), message));
+//@|                    }
+//@ afterloop 2
+//@|            proof {
+//@|                assert forall|j: int| 0 <= j < e0.order@.len() && j != e0.idx@ implies #[trigger] subscriber.map@[e0.order@[j]] == e0.map@[e0.order@[j]] by {
+//@|                    assert(e0.order@[j] != e0.k());
+//@|                }
+//@|            }
+//@|            let ghost e1 = subscriber;
+//@ hint after "iter = subscriber.next_async().await;"
+//@|            proof {
+//@|                assert(t0[e0.k()] == s0);
+//@|                assert(e1.order == e0.order && e1.idx == e0.idx);
+//@|                assert(e1.map@[e0.k()] == e1.val());
+//@|                assert(xdelivered_iff(s0, e1.val(), message));
+//@|                assert(xdelivered_iff(t0[e0.order@[e0.idx@]], e1.map@[e0.order@[e0.idx@]], message));
+//@|                assert forall|j: int| 0 <= j < e0.idx@ implies xdelivered_iff(t0[e0.order@[j]], #[trigger] e1.map@[e0.order@[j]], message) by {
+//@|                    assert(e1.map@[e0.order@[j]] == e0.map@[e0.order@[j]]);
+//@|                    assert(xdelivered_iff(t0[e0.order@[j]], e0.map@[e0.order@[j]], message));
+//@|                }
+//@|                assert forall|j: int| e0.idx@ < j < e0.order@.len() implies #[trigger] e1.map@[e0.order@[j]] == t0[e0.order@[j]] by {
+//@|                    assert(e1.map@[e0.order@[j]] == e0.map@[e0.order@[j]]);
+//@|                }
+//@|                if iter is None {
+//@|                    assert forall|k: PeerIdentity| t0.contains_key(k) implies xdelivered_iff(t0[k], #[trigger] tfv[k], message) by {
+//@|                        assert(e1.order@.contains(k));
+//@|                        let j = choose|j: int| 0 <= j < e1.order@.len() && e1.order@[j] == k;
+//@|                        assert(e1.map@[e1.order@[j]] == tfv[k]);
+//@|                    }
+//@|                }
+//@|            }
+//@ afterloop 1
+//@|        proof { assert(self.backend.subscribers@ == tfv); }
+//@ loop 3
+//@|            invariant
+//@|                tfv.dom() =~= t0.dom(), forall|k: PeerIdentity| t0.contains_key(k) ==> xdelivered_iff(t0[k], #[trigger] tfv[k], message),
+//@|                forall|k: PeerIdentity| #[trigger] self.backend.subscribers@.contains_key(k) ==> tfv.contains_key(k) && self.backend.subscribers@[k] == tfv[k],
 //@ end
 }
 
